@@ -19,7 +19,7 @@ EXPLANATION = (
     "`code & 0xFF00 == 0`; R4 the DESCRIPTIONS literal, evaluated as a first-match function over all 65536 codes, "
     "equals the CiA 301 error class table; get_desc has the loop shape the evaluation assumes; R5 wait(): snapshot "
     "and wait inside the condition, None on unchanged size or passed deadline, filter is `emcy_code is None or "
-    "emcy.code == emcy_code`; R6 log and active are never aliased and only on_emcy/reset rebind them. R8 no class-level mutable object is mutated in place by instances (each node/client/map/dictionary has its own state)."
+    "emcy.code == emcy_code`; R6 log and active are never aliased and only on_emcy/reset rebind them; R9 the bus listener hands every data frame, with the frame's own id/data/timestamp, to the subscribers (shared with C10.R5); R8 structural assumptions shared by all properties: no class-level mutable object is mutated in place by instances, no method re-runs the constructor, logging statements cannot raise."
 )
 ASSUMPTIONS = [
     "not decided: which of several concurrently arriving entries a waiting caller is handed (schedule dependent)",
